@@ -294,9 +294,16 @@ Section WStream.
         | None => raise EAttribute
         | Some hk =>
             if negb (hk_accepted hk) then
+              match ws_state s with
+              | WResponse | WHttpClosed =>
+                  (* the application is rejecting (has rejected) the handshake with a response of its own: a second
+                     response cannot be sent, nothing more is read from the client (finding F61) *)
+                  ret tt
+              | _ =>
               (* closed first: the application may try to accept meanwhile; the later StreamClosed is then ignored, so the
                  application, if one was started, is told here *)
               wset_closed ;; ws_send_error_response 400 ;; when (ws_has_app s) (wapp_put (RWsDisconnect 1006%Z))
+              end
             else
               emit (OLib [VS "ws.receive_data"]) ;;
               ws_handle_events evs
